@@ -21,12 +21,12 @@ def main():
     if st:
         print("refusing: /repo has uncommitted changes:\n" + st)
         sys.exit(2)
-    r = sh("git -C %s apply --3way %s" % (REPO, patch))
+    r = sh("git -C %s apply %s" % (REPO, patch))
     if r.returncode != 0:
         r = sh("cd %s && patch -p1 --no-backup-if-mismatch < %s" % (REPO, patch))
         if r.returncode != 0:
-            print("patch does not apply:", r.stdout[-500:], r.stderr[-500:])
-            sh("git -C %s checkout -- . && git -C %s reset -q" % (REPO, REPO))
+            print("patch does not apply:", r.stdout[-300:], r.stderr[-300:])
+            sh("git -C %s reset -q; git -C %s checkout HEAD -- .; find %s -name '*.rej' -o -name '*.orig' | grep -v testdata | xargs rm -f" % (REPO, REPO, REPO))
             sys.exit(2)
     try:
         b = sh("cd %s && GOFLAGS=-mod=mod GOPROXY=off GOSUMDB=off GOTOOLCHAIN=local go build ./... && GOFLAGS=-mod=mod go build -tags verif ./..." % REPO)
